@@ -23,13 +23,20 @@ type Ctx struct {
 	out    *bufio.Writer
 	replay string
 	work   string
+	mix    string
 	stats  map[string]int
 }
 
 func (c *Ctx) line(format string, a ...interface{}) {
 	fmt.Fprintf(c.out, format, a...)
 	c.out.WriteByte('\n')
+	if syncOut {
+		c.out.Flush()
+	}
 }
+
+// HX_SYNC=1: flush after every line (so that the trace survives a crash of the process)
+var syncOut = os.Getenv("HX_SYNC") != ""
 
 func (c *Ctx) count(k string) { c.stats[k]++ }
 
@@ -98,6 +105,7 @@ func main() {
 	out := fs.String("out", "", "")
 	replay := fs.String("replay", "", "")
 	work := fs.String("work", "", "scratch directory")
+	mix := fs.String("mix", "full", "seq engine: client (set/delete/incr/get/meta/flush), restart (+ restarts), full (+ GC)")
 	fs.Parse(os.Args[2:])
 	f, ok := engines[eng]
 	if !ok {
@@ -114,7 +122,7 @@ func main() {
 		}
 		defer w.Close()
 	}
-	ctx := &Ctx{seed: *seed, n: *n, tier: *tier, out: bufio.NewWriterSize(w, 1<<20), replay: *replay, work: *work, stats: map[string]int{}}
+	ctx := &Ctx{seed: *seed, n: *n, tier: *tier, out: bufio.NewWriterSize(w, 1<<20), replay: *replay, work: *work, mix: *mix, stats: map[string]int{}}
 	f(ctx)
 	// input distribution: printed into the trace so that it ends up in the evidence
 	for k, v := range ctx.stats {
